@@ -106,7 +106,8 @@ def gen(rng, rich=True, n_einsums=None, special_names=True):
     prev = None
     for i, nm in enumerate(names):
         decl[nm] = ["M", "N"]
-        if prev is not None and rng.random() < 0.35:
+        fuse = bool(einsums) and rng.random() < 0.5 and len(einsums[-1]["loop"]) == 3
+        if prev is not None and not fuse and rng.random() < 0.35:
             expr = "%s[m, n] = %s[m, n] * C[m, n]" % (nm, prev)
             ins = {prev: ["M", "N"], "C": ["M", "N"]}
             ranks = ["M", "N"]
@@ -116,15 +117,17 @@ def gen(rng, rich=True, n_einsums=None, special_names=True):
             ranks = ["M", "K", "N"]
         loop = list(ranks)
         rng.shuffle(loop)
-        if einsums and rng.random() < 0.6 and sorted(einsums[-1]["loop"]) == sorted(loop):
+        if einsums and (fuse or rng.random() < 0.3) and sorted(einsums[-1]["loop"]) == sorted(loop):
             loop = list(einsums[-1]["loop"])                  # favour fusable runs
         k = rng.choice([0, 0, 1, 1, 2])
         space = loop[len(loop) - k:] if rng.random() < 0.7 else rng.sample(loop, min(k, len(loop)))
-        if einsums and rng.random() < 0.5 and einsums[-1]["loop"] == loop:
+        if einsums and (fuse or rng.random() < 0.3) and einsums[-1]["loop"] == loop:
             space = list(einsums[-1]["space"])
         cfg = rng.choice(cfg_names)
-        if einsums and rng.random() < 0.6:
+        if einsums and (fuse or rng.random() < 0.4):
             cfg = einsums[-1]["config"]
+        # functional components already used by the run of fusable Einsums this one continues
+        avoid = set(einsums[-1]["used_fus"]) if fuse else set()
         e = {"name": nm, "expr": expr, "inputs": ins, "loop": loop, "space": space, "config": cfg,
              "prefix": "tmp/" + nm, "tensors": dict(ins, **{nm: ["M", "N"]})}
         # formats: one per tensor and loop-concordant rank order
@@ -144,13 +147,15 @@ def gen(rng, rich=True, n_einsums=None, special_names=True):
                         d["pbits"] = rng.choice([32, 64, 0]) if rng.random() < 0.1 else rng.choice([32, 64])
                     f[r] = d
                 spec[fname] = f
-        e["bindings"] = gen_bindings(rng, e, dict(arch)[cfg], formats)
+        e["bindings"] = gen_bindings(rng, e, dict(arch)[cfg], formats, avoid, sparse=rng.random() < 0.2)
+        decl_cls = {c["name"]: c["class"].lower() for c, _ in config_components(dict(arch)[cfg])}
+        e["used_fus"] = sorted(avoid | set(n for n, bs in e["bindings"] if bs and decl_cls.get(n) in FUNCTIONAL))
         einsums.append(e)
         prev = nm
     return {"decl": decl, "einsums": einsums, "formats": formats, "arch": arch, "shared_names": shared}
 
 
-def gen_bindings(rng, e, tree, formats):
+def gen_bindings(rng, e, tree, formats, avoid=(), sparse=False):
     comps = config_components(tree)
     by_class = {}
     for c, d in comps:
@@ -194,9 +199,10 @@ def gen_bindings(rng, e, tree, formats):
         if in_buf[bf["name"]] or rng.random() < 0.3:
             entries[bf["name"]] = (bf["name"], [mk(k, True) for k in in_buf[bf["name"]]])
     fus = []
+    pf = 0.3 if sparse else 1.0
     for c in by_class.get("intersector", []):
         shared = [r for r in loop if sum(1 for t, rs in e["inputs"].items() if r in rs) >= 2]
-        if shared and rng.random() < 0.7:
+        if shared and c["name"] not in avoid and rng.random() < 0.7 * pf:
             p = rng.random()
             rks = [] if p < 0.1 else ([rng.choice(shared)] if p < 0.8 or len(shared) < 2 else rng.sample(shared, 2))
             bs = []
@@ -208,14 +214,14 @@ def gen_bindings(rng, e, tree, formats):
             fus.append((c["name"], bs))
     for c in by_class.get("compute", []):
         op = c["attrs"]["type"]
-        if rng.random() < (0.85 if op == "mul" else 0.6):
+        if c["name"] not in avoid and rng.random() < (0.85 if op == "mul" else 0.6) * pf:
             fus.append((c["name"], [{"op": op}]))
     for c in by_class.get("sequencer", []):
-        if rng.random() < 0.6:
+        if c["name"] not in avoid and rng.random() < 0.6 * pf:
             k = rng.randint(1, len(loop))
             fus.append((c["name"], [{"rank": r} for r in rng.sample(loop, k)]))
     for c in by_class.get("merger", []):
-        if rng.random() < 0.5:
+        if rng.random() < 0.5 * pf:
             t = rng.choice(sorted(e["inputs"]))
             rs = list(e["inputs"][t])
             init = list(rs)
